@@ -20,6 +20,8 @@ pub mod logging_db;
 pub mod rust_ir;
 pub mod solve;
 pub mod split;
+#[cfg(chalk_verif)]
+pub mod verif;
 pub mod wf;
 
 /// Trait representing access to a database of rust types.
